@@ -684,3 +684,118 @@ def supported_forms(run, model, rule="C07.supported-forms"):
         run.check(can_return and flow.cfg.exit_return.id in reach, rule, fi.qual, "handler present and can produce a value", "the handler of ast.%s always raises" % f, fi.loc())
     gv = model.method("_recompute", "Visitor", "generic_visit")
     run.check(gv is not None, rule, "_recompute.Visitor.generic_visit", "unknown node types are reported, not silently skipped", "no generic_visit", "icontract/_recompute.py")
+
+
+def simple_nodes(run, model, rule="C06.node-semantics"):
+    """The value computed for the simple node kinds is Python's own operation on the re-computed children."""
+    V = lambda attr: ("call", ("attr", ("param", "self"), "visit"), (), (("node", ("attr", NODE, attr)),))
+    specs = {
+        "visit_Attribute": lambda rt: rt[0] == "attr" and False,
+        "visit_Constant": None,
+    }
+    def ret_terms(name):
+        fi = model.method("_recompute", "Visitor", name, required=False)
+        if fi is None:
+            return None, None, []
+        flow = get_flow(model, fi)
+        run.saw(flow)
+        out = []
+        for n in flow.cfg.nodes:
+            if n.kind == "return" and n.ast is not None:
+                t = strip_sites(flow.term(n.ast, n))
+                if t != ("global", "_recompute", "PLACEHOLDER"):
+                    out.append(t)
+        return fi, flow, out
+
+    def visit_arg(t):
+        v = _visit_of(t)
+        return v
+
+    # Attribute: getattr(visit(node.value), node.attr)
+    fi, flow, rts = ret_terms("visit_Attribute")
+    if fi is not None:
+        ok = len(rts) >= 1 and all(t[0] == "call" and t[1] == ("builtin", "getattr") and len(t[2]) == 2 and visit_arg(t[2][0]) == ("attr", NODE, "value") and t[2][1] == ("attr", NODE, "attr") and not t[3] for t in rts)
+        run.check(ok, rule, fi.qual, "getattr(<re-computed value>, node.attr)", "the attribute is not looked up as Python does (`getattr(value, node.attr)` without default): %s" % [show(t, 80) for t in rts], fi.loc())
+    # Subscript: visit(node.value)[visit(node.slice)]
+    fi, flow, rts = ret_terms("visit_Subscript")
+    if fi is not None:
+        ok = len(rts) >= 1 and all(t[0] == "idx" and visit_arg(t[1]) == ("attr", NODE, "value") and visit_arg(t[2]) == ("attr", NODE, "slice") for t in rts)
+        run.check(ok, rule, fi.qual, "<re-computed value>[<re-computed slice>]", "the subscript is not computed as value[slice]: %s" % [show(t, 80) for t in rts], fi.loc())
+    # Constant: node.value
+    fi, flow, rts = ret_terms("visit_Constant")
+    if fi is not None:
+        ok = rts == [("attr", NODE, "value")]
+        run.check(ok, rule, fi.qual, "node.value", "a constant is not re-computed as its own value: %s" % [show(t, 80) for t in rts], fi.loc())
+    # Slice: slice(lower, upper, step) of the re-computed parts (None when absent)
+    fi, flow, rts = ret_terms("visit_Slice")
+    if fi is not None:
+        def part_ok(t, attr):
+            alts = t[1] if t[0] == "phi" else (t,)
+            return all(a == ("const", "None") or visit_arg(a) == ("attr", NODE, attr) for a in alts) and any(visit_arg(a) == ("attr", NODE, attr) for a in alts)
+        ok = len(rts) >= 1 and all(t[0] == "call" and t[1] == ("builtin", "slice") and len(t[2]) == 3 and part_ok(t[2][0], "lower") and part_ok(t[2][1], "upper") and part_ok(t[2][2], "step") for t in rts)
+        run.check(ok, rule, fi.qual, "slice(lower, upper, step)", "the slice is not built from lower, upper, step in that order: %s" % [show(t, 100) for t in rts], fi.loc())
+    # NamedExpr: value of node.value, bound to the target's name for later lookups
+    fi, flow, rts = ret_terms("visit_NamedExpr")
+    if fi is not None:
+        okv = len(rts) >= 1 and all(visit_arg(t) == ("attr", NODE, "value") for t in rts)
+        bound = False
+        for n in flow.cfg.nodes:
+            if n.kind == "stmt" and isinstance(n.ast, ast.Assign) and isinstance(n.ast.targets[0], ast.Subscript):
+                tg = n.ast.targets[0]
+                if strip_sites(flow.term(tg.value, n)) == ("attr", ("param", "self"), "_name_to_value") and strip_sites(flow.term(tg.slice, n)) == ("attr", ("attr", NODE, "target"), "id") and visit_arg(strip_sites(flow.term(n.ast.value, n))) == ("attr", NODE, "value"):
+                    bound = True
+        run.check(okv and bound, rule, fi.qual, "value of the right-hand side, bound to the target name for the rest of the condition", "an assignment expression is not re-computed as `name := value` (value returned: %s, name bound: %s)" % ([show(t, 60) for t in rts], bound), fi.loc())
+    # the collection displays: elements in source order
+    for name, kind in (("visit_List", "list"), ("visit_Tuple", "tuple"), ("visit_Set", "set")):
+        fi = model.method("_recompute", "Visitor", name, required=False)
+        if fi is None:
+            continue
+        comps = [sub for sub in ast.walk(fi.node) if isinstance(sub, (ast.ListComp, ast.GeneratorExp, ast.SetComp)) and any(isinstance(c, ast.Call) and src_of(c.func) == "self.visit" for c in ast.walk(sub.elt))]
+        ok = len(comps) == 1 and len(comps[0].generators) == 1 and src_of(comps[0].generators[0].iter) == "node.elts" and not comps[0].generators[0].ifs
+        run.check(ok, rule, fi.qual, "every element of node.elts re-computed, in order", "the elements of the display are not re-computed one for one from node.elts", fi.loc())
+    fi = model.method("_recompute", "Visitor", "visit_Dict", required=False)
+    if fi is not None:
+        src = src_of(fi.node)
+        ok = "zip(node.keys, node.values)" in src and "self.visit(node=key)" in src.replace("self.visit(key)", "self.visit(node=key)") and "self.visit(node=val)" in src.replace("self.visit(val)", "self.visit(node=val)")
+        run.check(ok, rule, fi.qual, "keys paired with values in order", "the dictionary display is not re-computed from zip(node.keys, node.values)", fi.loc())
+
+
+def lambda_location(run, model, rule="C07.text"):
+    """find_lambda_condition takes the first positional argument of the decorator call, else the keyword `condition`."""
+    fi = model.func("_represent.find_lambda_condition")
+    flow = get_flow(model, fi)
+    run.saw(flow)
+    CALL = ("attr", ("param", fi.params[0]), "node")
+    sources = []
+    for lst in flow.node_defs.values():
+        for d in lst:
+            if d.kind == "assign" and d.value is not None:
+                t = strip_sites(flow.term(d.value, d.node))
+                if t == ("idx", ("attr", CALL, "args"), ("const", "0")):
+                    sources.append(("positional", d))
+                elif t[0] == "attr" and t[2] == "value" and t[1][0] == "elem" and t[1][1] == ("attr", CALL, "keywords"):
+                    sources.append(("keyword", d))
+    kinds = sorted(k for k, _ in sources)
+    bad = None
+    if kinds != ["keyword", "positional"]:
+        bad = "the lambda of the condition is located from %s (expected: the first positional argument of the decorator call, else the keyword argument named `condition`)" % (kinds or "nowhere")
+    else:
+        gg = GuardGraph(flow)
+        kw = [d for k, d in sources if k == "keyword"][0]
+        # the keyword branch is guarded by `keyword.arg == "condition"`
+        want = ("op", "cmp:Eq", (("attr", ("elem", ("attr", CALL, "keywords")), "arg"), ("const", "'condition'")))
+        ok = any(strip_sites(a) == want and pol and gg.necessary([flow.cfg.entry], [kw.node.id], (a, True)) for (nid, k), (kn, atoms) in gg.edge_facts.items() for a, pol in kn)
+        if not ok:
+            bad = "a keyword argument other than `condition` (e.g. a lambda given as `error=`) can be taken for the condition"
+        pos = [d for k, d in sources if k == "positional"][0]
+        okp = any(strip_sites(a) == ("attr", CALL, "args") and pol and gg.necessary([flow.cfg.entry], [pos.node.id], (a, True)) for (nid, k), (kn, atoms) in gg.edge_facts.items() for a, pol in kn)
+        if not okp and bad is None:
+            bad = "the first positional argument is used without testing that the call has positional arguments"
+    rets = [strip_sites(flow.term(n.ast, n)) for n in flow.cfg.nodes if n.kind == "return" and n.ast is not None]
+    run.check(bad is None, rule, fi.qual, "condition lambda = first positional argument, else the `condition` keyword", bad or "", fi.loc())
+    # the inspection handed on carries the lambda found and the tokens of the same decorator text
+    fi2 = model.func("_represent.inspect_lambda_condition")
+    fl2 = get_flow(model, fi2)
+    src = src_of(fi2.node)
+    ok = "inspect.findsource(condition)" in src and "inspect_decorator(" in src and "find_lambda_condition(" in src
+    run.check(ok, rule, fi2.qual, "source found for the condition itself; decorator located around its line; lambda picked from that decorator", "the lambda inspection does not go from the condition's own source line to its decorator", fi2.loc())
